@@ -47,7 +47,7 @@ var c06Std = map[string]world.Config{
 	"literals": {Name: "literals", Flags: []string{"-literals"}},
 	"seedA":    {Name: "seedA", Flags: []string{seedA}},
 	"seedB":    {Name: "seedB", Flags: []string{seedB}},
-	"gogarble": {Name: "gogarble", Env: map[string]string{"GOGARBLE": "example.test/p1/leaf,example.test/p1/mid1,example.test/p3/lib,example.test/p2/asmpkg"}},
+	"gogarble": {Name: "gogarble", Env: map[string]string{"GOGARBLE": "example.test/p1/leaf,example.test/p1/mid1,example.test/p3/lib,example.test/p2/asmpkg,example.test/dummy"}},
 	"ctrlflow": {Name: "ctrlflow", Env: map[string]string{"GARBLE_EXPERIMENTAL_CONTROLFLOW": "1"}},
 	"lit-seedA": {Name: "lit-seedA", Flags: []string{"-literals", seedA}},
 }
